@@ -18,7 +18,7 @@ IV_tiny == {-1, 0, 10}
 \* tests, '-' and parent must follow the key sequences, not the printed text
 AK_quick == {StrKey(<<7>>), StrKey(<<7, 8>>), StrKey(<<3>>), StrKey(<<3, 4>>), StrKey(<<4, 3>>), StrKey(<<7, 2, 8>>), StrKey(<<1, 4>>),
              IntKey(-10), IntKey(-1), IntKey(0), IntKey(10)}
-AK_thorough == AK_quick \cup {StrKey(<<8>>), StrKey(<<1, 4, 3>>), StrKey(<<5, 3, 6>>), StrKey(<<9>>), StrKey(<<9, 7>>), IntKey(1), IntKey(11), IntKey(-11)}
+AK_thorough == AK_quick \cup {StrKey(<<8>>), StrKey(<<5, 3, 6>>), StrKey(<<9>>), IntKey(1)}
 VK_quick == {StrKey(<<7>>), StrKey(<<3>>), StrKey(<<7, 2, 8>>), StrKey(<<5, 3, 6>>), IntKey(0), IntKey(1), IntKey(-1)}
 VK_thorough == VK_quick \cup {StrKey(<<9>>), StrKey(<<8, 5, 2, 6>>), IntKey(10), StrKey(<<1, 4>>)}
 VS_quick == {StrKey(<<7>>), IntKey(0), StrKey(<<7, 2, 8>>)}
